@@ -1,13 +1,17 @@
 use crate::id_resolver::{resolve_id, OperationType};
 use crate::output::{RedoResult, UndoResult};
 use crate::{redo_renaming, undo_renaming, History};
-use anyhow::Result;
+use anyhow::{Context, Result};
 use std::path::Path;
 
 /// Undo operation - returns structured data
 pub fn undo_operation(id: &str, working_dir: Option<&Path>) -> Result<UndoResult> {
     let current_dir = working_dir.unwrap_or_else(|| Path::new("."));
     let renamify_dir = current_dir.join(".renamify");
+
+    // Undo rewrites the tree and the history: no other renamify command may run meanwhile
+    let _lock = crate::LockFile::acquire(&renamify_dir)
+        .context("Failed to acquire lock for renamify operation")?;
 
     // Resolve the ID (handles "latest" and validates the ID exists)
     let actual_id = resolve_id(id, OperationType::Undo, &renamify_dir)?;
@@ -35,6 +39,10 @@ pub fn undo_operation(id: &str, working_dir: Option<&Path>) -> Result<UndoResult
 pub fn redo_operation(id: &str, working_dir: Option<&Path>) -> Result<RedoResult> {
     let current_dir = working_dir.unwrap_or_else(|| Path::new("."));
     let renamify_dir = current_dir.join(".renamify");
+
+    // Redo rewrites the tree and the history: no other renamify command may run meanwhile
+    let _lock = crate::LockFile::acquire(&renamify_dir)
+        .context("Failed to acquire lock for renamify operation")?;
 
     // Resolve the ID (handles "latest" and validates the ID exists)
     let actual_id = resolve_id(id, OperationType::Redo, &renamify_dir)?;
